@@ -1,0 +1,13 @@
+//go:build verif
+
+package pool
+
+// VerifYield, when set (verification builds only), is called at the pool's
+// synchronisation points with the name of the point and the command index.
+var VerifYield func(point string, i int)
+
+func verifYield(point string, i int) {
+	if f := VerifYield; f != nil {
+		f(point, i)
+	}
+}
